@@ -282,12 +282,103 @@ def spell_string(v: str, quote: str = '"') -> str:
     return quote + v.replace(quote, "\\" + quote).replace("\n", "\\n") + quote
 
 
-class Printer:
-    """Builds the token list. `opts` may carry per-literal spelling choices keyed by id(node)."""
+OTHER_LINESEPS = "\r\x0b\x0c\x1c\x1d\x1e\x85\u2028\u2029"
 
-    def __init__(self, opts: dict | None = None):
+
+class Respell:
+    """Alternative spellings that denote the same value (property C16).  Every choice comes from `rnd`; `dims` selects
+    which kinds of spelling are varied: int (base, digit case, zeros), dec (leading zeros of the whole part), str (quote
+    style, triple-quoted forms), label (@ / §), header (for_actor(X) / for actor X, optional parentheses), comma (trailing
+    commas), pos (quote and number spellings inside Position<...>)."""
+    ALL = ("int", "dec", "str", "label", "header", "comma", "pos")
+
+    def __init__(self, rnd: random.Random, dims: Any = None):
+        self.r = rnd
+        self.dims = set(self.ALL if dims is None else dims)
+
+    def on(self, d: str) -> bool:
+        return d in self.dims
+
+    def int(self, v: int) -> str:
+        c = self.r.random()
+        if v == 0 and c < 0.3:
+            return self.r.choice(["0", "00", "000", "-0", "-00"])
+        if c < 0.35:
+            return str(v)
+        k = self.r.choice("xXoObB")
+        digits = format(abs(v), k.lower())
+        if k in "xX":
+            digits = "".join(ch.upper() if self.r.random() < 0.5 else ch for ch in digits)
+        return ("-" if v < 0 else "") + "0" + k + "0" * self.r.choice([0, 0, 0, 1, 3]) + digits
+
+    def dec(self, sp: str) -> str:
+        neg = sp.startswith("-")
+        whole, frac = sp.lstrip("-").split(".")
+        w = whole.lstrip("0")
+        if w == "":
+            w = self.r.choice(["", "0", "00", "0000"])
+        else:
+            w = "0" * self.r.choice([0, 0, 1, 2, 5]) + w
+        return ("-" if neg else "") + w + "." + frac
+
+    def string_forms(self, v: str, single_only: bool = False) -> list[str]:
+        forms = [spell_string(v, "'"), spell_string(v, '"')]
+        if single_only or "\\" in v or any(ch in v for ch in OTHER_LINESEPS):
+            return forms
+        lines = v.split("\n")
+        for q in ("'", '"'):
+            d = q * 3
+            if d in v:
+                continue
+            if "\n" not in v and q not in v:
+                forms.append(d + v + d)
+            # the repository's own triple-quoted layout at indentation k; reads back as v when some line of v does not
+            # start with a blank (C04 GuardM, indent > 0)
+            if any(not l.startswith(" ") for l in lines):
+                pre = " " * (4 * self.r.choice([1, 2]))
+                forms.append(d + "\n" + "\n".join(pre + "    " + l for l in lines) + "\n" + pre + d)
+        return forms
+
+    def string(self, v: str, single_only: bool = False) -> str:
+        return self.r.choice(self.string_forms(v, single_only))
+
+    def pos_arg(self, sp: str) -> str:
+        rel, off = pos_arg(sp)
+        neg = sp.startswith("-")
+        if off == 2:
+            a = abs(rel)
+            whole = self.r.choice(["", "0", "00"]) if a == 0 else "0" * self.r.choice([0, 0, 1, 2]) + str(a)
+            # '-.5' is rejected by the compiler (int('-')), keep a digit after a minus sign
+            if neg and whole == "":
+                whole = "0"
+            return ("-" if neg else "") + whole + ".5" + "0" * self.r.choice([0, 0, 1, 3])
+        c = self.r.random()
+        if c < 0.5:
+            return self.int(rel)
+        a = abs(rel)
+        whole = self.r.choice(["", "0"]) if a == 0 and not neg else "0" * self.r.choice([0, 0, 2]) + str(a)
+        return ("-" if rel < 0 else "") + whole + "." + "0" * self.r.choice([1, 1, 2, 4])
+
+
+class Printer:
+    """Builds the token list. `opts` may carry per-literal spelling choices keyed by id(node).  With `respell` every literal
+    / header / label / argument list is printed in a randomly chosen equivalent spelling instead of the hinted one."""
+
+    def __init__(self, opts: dict | None = None, respell: Respell | None = None):
         self.toks: list[Tok] = []
         self.opts = opts or {}
+        self.respell = respell
+
+    def rs(self, dim: str) -> Respell | None:
+        return self.respell if self.respell is not None and self.respell.on(dim) else None
+
+    def num(self, v: int, style: dict | None = None, sp: str | None = None) -> str:
+        r = self.rs("int")
+        return r.int(v) if r else (sp or spell_int(v, style))
+
+    def comma(self, hinted: bool) -> bool:
+        r = self.rs("comma")
+        return (r.r.random() < 0.5) if r else hinted
 
     # -- token helpers
     def t(self, text: str, marks: list | None = None) -> Tok:
@@ -311,15 +402,19 @@ class Printer:
     def il(self, il: dict) -> None:
         k = il["k"]
         if k == "int":
-            self.t(il.get("sp") or spell_int(il["v"], il.get("style")))
+            self.t(self.num(il["v"], il.get("style"), il.get("sp")))
         elif k == "dec":
-            self.t(il["v"])
+            r = self.rs("dec")
+            self.t(r.dec(il["v"]) if r else il["v"])
         else:
             self.t(il["v"])
 
     def string_value(self, s: str, spec: dict | None = None) -> None:
         spec = spec or {}
-        if spec.get("sp"):
+        r = self.rs("str")
+        if r:
+            self.t(r.string(s))
+        elif spec.get("sp"):
             self.t(spec["sp"])
         else:
             self.t(spell_string(s, spec.get("quote", '"')))
@@ -336,7 +431,7 @@ class Printer:
                 self.t(lang)
                 self.t("=")
                 self.string_value(s, (a.get("specs") or {}).get(lang))
-                if i < len(a["v"]) - 1 or a.get("trailing_comma"):
+                if i < len(a["v"]) - 1 or self.comma(bool(a.get("trailing_comma"))):
                     self.t(",")
             self.t("}")
         elif k == "pos":
@@ -344,11 +439,12 @@ class Printer:
             self.t("Position")
             self.add_mark(i0, ("pos", id(a)), "start")
             self.t("<")
-            self.t(spell_string(a["name"], a.get("quote", "'")))
+            r = self.rs("pos")
+            self.t(r.string(a["name"], single_only=True) if r else spell_string(a["name"], a.get("quote", "'")))
             self.t(",")
-            self.t(a["x"])
+            self.t(r.pos_arg(a["x"]) if r else a["x"])
             self.t(",")
-            self.t(a["y"])
+            self.t(r.pos_arg(a["y"]) if r else a["y"])
             self.t(">")
             self.add_mark(len(self.toks) - 1, ("pos", id(a)), "end")
         else:
@@ -356,6 +452,7 @@ class Printer:
 
     def arglist(self, args: list[dict], trailing_comma: bool = False) -> None:
         self.t("(")
+        trailing_comma = self.comma(trailing_comma)
         for i, a in enumerate(args):
             self.arg(a)
             if i < len(args) - 1 or (trailing_comma and args):
@@ -376,14 +473,14 @@ class Printer:
         elif t == "bit":
             if h.get("not"):
                 self.t("not")
-            self.il(h["var"]); self.t("["); self.t(spell_int(h["index"])); self.t("]")
+            self.il(h["var"]); self.t("["); self.t(self.num(h["index"])); self.t("]")
         elif t == "neg":
             if h.get("not"):
                 self.t("not")
             self.t(h["kw"])
         elif t == "scn":
             self.t("scn"); self.t("("); self.il(h["var"]); self.t(")"); self.t(h["cmp"])
-            self.t("["); self.t(spell_int(h["a"])); self.t(","); self.t(spell_int(h["b"])); self.t("]")
+            self.t("["); self.t(self.num(h["a"])); self.t(","); self.t(self.num(h["b"])); self.t("]")
         elif t == "operation":
             self.t(h["name"]); self.arglist(h["args"])
         self.add_mark(i0, ("hdr", id(h)))
@@ -397,7 +494,8 @@ class Printer:
                 self.t("<"); self.t(s["ctx"]["kind"]); self.il(s["ctx"]["target"]); self.t(">")
             self.arglist(s["args"], s.get("trailing_comma", False))
         elif t == "label":
-            self.t(("§" if s.get("paragraph") else "@"))
+            r = self.rs("label")
+            self.t("§" if (r.r.random() < 0.5 if r else s.get("paragraph")) else "@")
             self.toks[-1].text += ""  # label marker and name are separate tokens in the grammar
             self.t(s["name"])
         elif t == "jump":
@@ -411,7 +509,7 @@ class Printer:
             if f == "regular":
                 self.il(s["target"])
                 if s.get("index") is not None:
-                    self.t("["); self.t(spell_int(s["index"])); self.t("]")
+                    self.t("["); self.t(self.num(s["index"])); self.t("]")
                 self.t(s["op"])
                 if s.get("value_of"):
                     self.t("value"); self.t("("); self.il(s["value"]); self.t(")")
@@ -432,7 +530,7 @@ class Printer:
             elif f == "dungeon_mode":
                 self.t("dungeon_mode"); self.t("("); self.il(s["target"]); self.t(")"); self.t("="); self.il(s["value"])
             elif f == "scn":
-                self.il(s["target"]); self.t("="); self.t("scn"); self.t("["); self.t(spell_int(s["a"])); self.t(","); self.t(spell_int(s["b"])); self.t("]")
+                self.il(s["target"]); self.t("="); self.t("scn"); self.t("["); self.t(self.num(s["a"])); self.t(","); self.t(self.num(s["b"])); self.t("]")
         else:
             raise ValueError(t)
         self.add_mark(i0, ("stmt", id(s)))
@@ -484,7 +582,7 @@ class Printer:
             if k == "var":
                 self.il(sh["v"])
             elif k == "scn":
-                self.t("scn"); self.t("("); self.il(sh["v"]); self.t(")"); self.t("["); self.t(spell_int(sh["index"])); self.t("]")
+                self.t("scn"); self.t("("); self.il(sh["v"]); self.t(")"); self.t("["); self.t(self.num(sh["index"])); self.t("]")
             elif k == "random":
                 self.t("random"); self.t("("); self.il(sh["v"]); self.t(")")
             elif k == "dungeon_mode":
@@ -559,12 +657,21 @@ class Printer:
         if r["kind"] == "coro":
             self.t("coro"); self.t(r["name"])
         else:
-            self.t("def"); self.t(r.get("id_sp") or spell_int(r["id"]))
+            self.t("def"); self.t(self.num(r["id"], None, r.get("id_sp")))
             if r["kind"] == "for":
-                if r.get("legacy"):
-                    self.t("for_" + r["tkind"]); self.t("("); self.il(r["target"]); self.t(")")
+                rh = self.rs("header")
+                legacy = (rh.r.random() < 0.5) if rh else bool(r.get("legacy"))
+                # the grammar has  OPEN_PAREN? integer_like CLOSE_PAREN?  after either spelling of the target
+                parens = (rh.r.random() < 0.5) if rh else legacy
+                if legacy:
+                    self.t("for_" + r["tkind"])
                 else:
-                    self.t("for"); self.t(r["tkind"]); self.il(r["target"])
+                    self.t("for"); self.t(r["tkind"])
+                if parens:
+                    self.t("(")
+                self.il(r["target"])
+                if parens:
+                    self.t(")")
         self.add_mark(i0, ("routine", id(r)))
         if r["body"] is None:
             self.t("{"); self.nl(+1); self.t("alias"); self.t("previous"); self.t(";"); self.nl(-1); self.t("}"); self.nl()
@@ -615,11 +722,21 @@ def needs_sep(a: str, b: str) -> bool:
         return True
     if x.isdigit() and y == ".":
         return True
+    if x in "'\"" and y == x:
+        return True   # '' followed by a quote would open a triple-quoted string (never adjacent in the grammar)
     return False
 
 
-def layout(toks: list[Tok], rnd: random.Random | None = None, style: str = "canonical") -> tuple[str, dict]:
-    """place tokens; returns (text, positions) with positions[key] = {"start": (line, col), "end": (line, col)} (0-based)"""
+RICH_UNITS = [" ", "  ", "\t", "\n", "\r\n", "\n\n   ", " \r", "/**/", "/***/", "/*/ */", "/* a\n * b\n */", "/* ' \" ''' \"\"\" */", "/* // */",
+              "/* é😀 */", "// x\n", "//\n", "// ' \" /* \r\n", "// é😀 */\n", "\\\n", "\\ \t\n", "\\\r\n", "\\\r", "\\ \n\n  ", "\\\x0c"]
+RICH_TAILS = ["", "", "\n", "  ", "// eof without newline", "/* unterminated", "/*", "\t/* é\n *", "\\\n"]
+
+
+def layout(toks: list[Tok], rnd: random.Random | None = None, style: str = "canonical", rich: bool = False) -> tuple[str, dict]:
+    """place tokens; returns (text, positions) with positions[key] = {"start": (line, col), "end": (line, col)} (0-based).
+    `rich` (random style only): half of the separators are sequences of 1-3 units from a larger pool (multi-line block comments,
+    comments with quotes / comment openers / non-ASCII text, every line-joining form, \\r as a blank), there may be a separator
+    before the first token, and the text may end in a comment that runs to the end of the input."""
     out: list[str] = []
     line, col = 0, 0
     pos: dict = {}
@@ -637,6 +754,10 @@ def layout(toks: list[Tok], rnd: random.Random | None = None, style: str = "cano
 
     def random_sep(required: bool) -> str:
         assert rnd is not None
+        if rich and rnd.random() < 0.5:
+            if not required and rnd.random() < 0.3:
+                return ""
+            return "".join(rnd.choice(RICH_UNITS) for _ in range(rnd.choice([1, 1, 2, 3])))
         c = rnd.random()
         if c < 0.45:
             return " " if required or rnd.random() < 0.6 else ""
@@ -655,6 +776,9 @@ def layout(toks: list[Tok], rnd: random.Random | None = None, style: str = "cano
         return "  \n\n  "
 
     prev = ""
+    rich_random = rich and style == "random" and rnd is not None
+    if rich_random and rnd.random() < 0.5:
+        emit("".join(rnd.choice(RICH_UNITS) for _ in range(rnd.choice([1, 2]))))
     for i, tk in enumerate(toks):
         if i > 0:
             req = needs_sep(prev, tk.text)
@@ -685,7 +809,7 @@ def layout(toks: list[Tok], rnd: random.Random | None = None, style: str = "cano
                 # position of the LAST token's start (the closing '>' of a Position literal)
                 pos.setdefault(key, {})["end"] = (start_line, start_col)
         prev = tk.text
-    emit("\n")
+    emit(rnd.choice(RICH_TAILS) if rich_random else "\n")
     return "".join(out), pos
 
 
